@@ -148,11 +148,13 @@ def run(pid, tier, seed, ctx=None):
 
     n_base = 90 if quick else 900
     fam = lpfam.corpus("solve") + lpfam.mixed(rng.fork("base"), n_base)
+    fam += [("tinycoef", lpfam.tinycoef(rng.fork("tiny%d" % k))) for k in range(12 if quick else 120)]
     # ---- phase 1: real solves, H1 replay, oracles
     groups = []
     for kind, lp in fam:
         algo = rng.choice(["primal", "dual"])
-        groups.append(["new 0 " + lp.line(), "solve 0 exact %s none" % algo, "getbasis 0"])
+        # a third of the problems are built rows-first / columns-later (structmap is then not the identity)
+        groups.append([("newcg 0 " if rng.chance(0.34) else "new 0 ") + lp.line(), "solve 0 exact %s none" % algo, "getbasis 0"])
     per = max(1, len(groups) // (build.NCPU * 2))
     batches = [sum(groups[i:i + per], []) for i in range(0, len(groups), per)]
     idx = [list(range(i, min(i + per, len(groups)))) for i in range(0, len(groups), per)]
